@@ -533,7 +533,7 @@ def check(recipe, src_root, clauses=("optimal", "valid", "all-any")):
                 c = o.cost()
                 if c == INF:
                     return f"{algo}/{pol}: returned a solution of infinite cost"
-    if not ({"optimal", "all-any"} & set(clauses)) or not coherent(recipe["costs"]):
+    if not ({"optimal", "all-any"} & set(clauses)) or not (coherent(recipe["costs"]) or recipe.get("outside_coherent_region")):
         return None
     if ordered:
         best, optimal = ordered_optimum(P, base)
@@ -697,4 +697,29 @@ def standin(name, models, clauses, describe, quick=2400, thorough=24000):
         return check(recipe, src_root, tuple(recipe.get("clauses", clauses)))
 
     sd.replay = replay
+    return sd
+
+
+# ---- recorded defect F-COHERENCE for the labelled solvers (outside spe + 2*sloss <= dup + 2*floss): witness inputs replayed on every run
+KNOWN_WITNESSES = [
+    {"id": "F-COHERENCE witness 3", "obj": (((), ()), ()), "sp": (((), ()), ()), "leafmap": [2, 3, 4], "leaf_syn": [["d", "a", "c", "b"], ["d", "b"], ["b"]],
+     "costs": [3, 0, "inf", 1, 0], "algo": "ext_spfs", "dict_order": [2, 1, 0], "outside_coherent_region": True},
+    {"id": "F-COHERENCE witness 4", "obj": ((), ((), ())), "sp": ((((), ()), ()), ()), "leafmap": [6, 5, 4], "leaf_syn": [["a", "b", "c"], ["b"], ["b", "c"]],
+     "costs": [4, 1, "inf", 1, 1], "algo": "superdtl", "outside_coherent_region": True},
+]
+
+
+def witness_standin(name, ids):
+    def run(tier, rng, src_root):
+        viol = []
+        ws = [r for r in KNOWN_WITNESSES if r["id"] in ids]
+        for r in ws:
+            w = check({k: v for k, v in r.items() if k != "id"}, src_root, ("optimal",))
+            if w:
+                viol.append((f"[{r['id']}] {w}", r))
+        return dict(evaluations=len(ws), distinct_nontrivial=len(ws), violations=viol, samples=ws[:1],
+                    rule="replay of the recorded witness inputs of known finding F-COHERENCE (cost vectors outside spe + 2*sloss <= dup + 2*floss)")
+
+    sd = Standin(name, run, describe="the listed witness inputs only")
+    sd.replay = lambda recipe, src_root: check({k: v for k, v in recipe.items() if k != "id"}, src_root, ("optimal",))
     return sd
